@@ -10,6 +10,7 @@ the consumer - never a hang, never a normal end that skipped the shard's example
 'rejected by the decoder' is decided by calling the third-party decoder directly."""
 from __future__ import annotations
 
+import json
 import random
 import shutil
 import tempfile
@@ -65,6 +66,13 @@ def damaged_reads(task: dict) -> dict:
                     if not readers.supports(iface, fmt, comp):
                         continue
                     fresh = Dataset(tmp / "d")
+                    if task.get("progress"):
+                        # the parent reads this when the whole process freezes (a pass that blocks while holding the
+                        # interpreter lock stops the watchdog thread too)
+                        with open(task["progress"], "a", encoding="utf-8") as pf:
+                            pf.write(json.dumps({"fmt": fmt, "compression": comp, "damage": damage,
+                                                 "position": task["position"], "nshards": task["nshards"],
+                                                 **cfg}) + "\n")
                     status, val = _timed(lambda: readers.read_ids(fresh, iface, "train", repeat=cfg["repeat"],
                                                                   shuffle=cfg["shuffle"], file_parallelism=cfg["fp"],
                                                                   take=(3 * n if cfg["repeat"] else None)),
@@ -170,20 +178,37 @@ def run(ctx: Ctx) -> None:
     if not q:
         configs += [{"iface": i, "shuffle": s, "fp": 2, "repeat": True} for i in ifaces for s in (0, 3)]
     tasks = []
-    formats = [("fb", ""), ("npz", ""), ("tfrec", "")] + ([] if q else [("fb", "LZ4"), ("fb", "GZIP"), ("tfrec", "GZIP"),
-                                                                         ("npz", "ZIP"), ("fb", "ZSTD")])
+    # (one compressed format in the quick tier too: a damaged compressed shard is rejected by the codec while the file
+    # is read - a different failure path from the decoder's)
+    formats = [("fb", ""), ("npz", ""), ("tfrec", ""), ("fb", "GZIP")] + \
+              ([] if q else [("fb", "LZ4"), ("tfrec", "GZIP"), ("npz", "ZIP"), ("fb", "ZSTD")])
     for fmt, comp in formats:
         for position in ("first", "middle", "last") + (() if q else ("only",)):
             tasks.append({"fmt": fmt, "compression": comp, "position": position,
                           "nshards": 1 if position == "only" else 4,
                           "damages": ["deleted", "emptied", "garbage"] + ([] if q else ["truncated"]),
                           "configs": configs, "seed": ctx.seed, "watchdog": 60})
+    for k, t in enumerate(tasks):
+        t["progress"] = str(ctx.tmp / f"progress_{k}.jsonl")
     try:
-        outs = H.run_histories(tasks, fn=damaged_reads)
+        outs = H.run_histories(tasks, fn=damaged_reads, freeze_limit=400, frozen_ok=True)
     finally:
         H.shutdown_pool()
     passes, cells, skipped = 0, set(), set()
     for t, o in zip(tasks, outs):
+        if o.get("frozen"):
+            lines = Path(t["progress"]).read_text().splitlines() if Path(t["progress"]).exists() else []
+            p = json.loads(lines[-1]) if lines else {"iface": "?", "shuffle": 0}
+            ctx.violation(f"C07|iface={p.get('iface')}|kind=process-frozen|shuffled={'yes' if p.get('shuffle') else 'no'}",
+                          f"{t['fmt']}/{t['compression']} shard {t['position']} {p.get('damage')}, {p.get('iface')} "
+                          f"shuffle={p.get('shuffle')} file_parallelism={p.get('fp')} repeat={p.get('repeat')}: the "
+                          f"reading process froze completely (no exception, no progress; even the watchdog thread of "
+                          f"the pass never ran again): {o['detail']}", {"pass": p, "task": {k_: v for k_, v in t.items()
+                                                                                            if k_ != "configs"}})
+            continue
+        if o.get("skipped_after_freeze"):
+            skipped.add("some datasets were not examined after three reading processes had frozen")
+            continue
         if o["error"]:
             raise MachineryError(o["error"])
         skipped |= set(o["skipped"])
@@ -204,9 +229,10 @@ def run(ctx: Ctx) -> None:
                        "damage, position, interface, shuffled?, file_parallelism, repeat) cells whose damaged bytes the "
                        "third-party decoder rejects")
     ctx.cov["not_faults"] = sorted(skipped)
-    if outs and outs[0]["passes"]:
-        ctx.sample(outs[0]["passes"][0])
-        ctx.sample(outs[-1]["passes"][-1])
+    judged = [o for o in outs if o.get("passes")]
+    if judged:
+        ctx.sample(judged[0]["passes"][0])
+        ctx.sample(judged[-1]["passes"][-1])
     ctx.log(f"{passes} passes over damaged datasets, {len(cells)} distinct cells; not faults: {sorted(skipped)}")
 
 
